@@ -40,7 +40,8 @@ claim('C10',
       'HandleSolution call of ReportSolution2AMPL carries SolveCode() and the selected objective value; both SolutionAdapter '
       'constructions of SolutionWriterImpl carry the status received, one value per variable / algebraic constraint (or none) '
       'and objno_used(); the SolutionAdapter constructor and accessors return what was stored; C05.WriteSolFile proves the '
-      '"objno <n> <code>" line carries sol.status().',
+      '"objno <n> <code>" line carries sol.status(). FlatBackend::GetSolution marks a solution "known infeasible" (which makes the converter skip '
+      'its solution check) exactly for the documented infeasible range 200-299 and keeps absent primal / dual vectors absent.',
       'Trusted: CBMC, extractor, SolveCode() as one ghost int (no override in the tree), writer/format calls as stubs, C++ '
       'virtual dispatch between the hops. Not decided: the -! table, AppSolutionHandlerImpl wantsol branches.',
       'DESIGN.md 4 C10')
@@ -51,7 +52,8 @@ claim('C12',
       'clauses (all / exactly the k-th / none, rejection beyond the file, index safety, echoed objno) are a lemma proved '
       'over those contracts for every option state, objective count and index. ProblemFlattener::Convert(MutObjective): the objective '
       'handed to AddObjective has the sense read, the linear part of the file, and the linear terms, quadratic terms and constant of the '
-      'flattened nonlinear part, with sorted terms, exactly once.',
+      'flattened nonlinear part, with sorted terms, exactly once. The objective number handed to the .sol writer by HandleSolution and '
+      'HandleFeasibleSolution (final and intermediate files) is objno_used().',
       'Trusted: CBMC, extractor, one solver object with members as globals, virtual dispatch resolved to the '
       'SolverNLHandlerImpl overrides, invariant objno_ >= -1 (proved for SetObjNo, initialiser read from the source). '
       'Not decided: discarding of skipped objective expressions/G segments (recursive readers), the expression visitor and the '
@@ -99,10 +101,11 @@ claim('C11',
       'raises an option error (no silent truncation). BasicSolver::ParseOptions parses the sources in the order mp_options, '
       '<executable>_options or else <solver>_options, command line, the command line with FROM_COMMAND_LINE and in argument order. '
       'BOUNDED stand-in (not counted as proved): SolverOption::wc_match for strings of at most 5 characters - a match implies head prefix and '
-      'tail suffix, head+body+tail with a non-empty body matches and records that body.',
+      'tail suffix, head+body+tail with a non-empty body matches and records that body; the synonym test of FindOption for names of at most 5 '
+      'characters - a name addresses an option through a synonym exactly when they are equal up to letter case.',
       'Trusted: CBMC, extractor, isspace as the C-locale predicate total on int, strtol/strtod never pass the first NUL, '
       'FindOption/HandleUnknownOption/ReportError/Print/getenv as stubs, the computation of the executable-specific variable name '
-      '(std::filesystem) dropped. Not decided: synonym lookup (FindOption: std::set / lambdas), wildcard matching beyond the bounded stand-in (std::string modelled in C), echo, the quoted-string '
+      '(std::filesystem) dropped. Not decided: the std::set lookup of FindOption by full name, synonym / wildcard matching beyond the bounded stand-in (std::string modelled in C), echo, the quoted-string '
       'value text, termination when HandleUnknownOption returns without consuming. Native replay: sweep of option texts, '
       'queries, integer ranges and source combinations under ASan.',
       'DESIGN.md 4 C11')
@@ -122,7 +125,8 @@ claim('C05',
       'BasicSuffix<T>::VisitValues visits exactly the non-zero values in index order (so the announced count and the lines '
       'agree); SuffixValueCounter::Visit counts. (4) Reader accepts what the writer writes: SOLReader2::sufheadcheck accepts every '
       'suffix header the writer can produce, the option-count / size-check / objno lines, and every table line the writer writes '
-      '(ghost fgets stream over the written bytes). '
+      '(ghost fgets stream over the written bytes), and every primal / dual value line (decstring accepts the number the writer wrote even when '
+      'strtod reports ERANGE for a subnormal result). '
       'Two genuine writer/reader disagreements are recorded as known findings (fewer than 3 options; vbtol form of the options).',
       'Trusted: CBMC, extractor, the ghost output model (fputc/fwrite/print always succeed; "{}" of an integer prints its '
       'decimal digits, "{:.16}" a double with 16 significant digits). Not decided: number round trip itself (fmt formatting vs '
@@ -203,10 +207,12 @@ claim('C04',
       'ValueNode::CleanUpAndRealloc[_Names]: before each transfer every value array has the node\'s size and holds only zeros '
       '(no value of an earlier transfer survives); Many2ManyLink::AddEntry (base of One2ManyLink / Many2OneLink) with the real '
       'NodeRange::{operator==, ExtendableBy, TryExtendBy, ExtendBy}: the set of linked (source position, target position) pairs after the '
-      'call is exactly the old set plus the pairs of the new entry (arbitrary witness pair).',
+      'call is exactly the old set plus the pairs of the new entry (arbitrary witness pair); the same for CopyLink::AddEntry with position-wise pairs; '
+      'Many2ManyLink::Distr / Collect (two nested loop contracts each): every position of the sending range reaches every position of the receiving '
+      'range exactly once with the value read there, and nothing is written outside the receiving range.',
       'Trusted: CBMC, extractor, value vectors as (pointer,length), Get/Set accessors bound to three node arrays with the proved '
       'SetNum rule, target entries cleaned to zero before a transfer (assumed), no NaN. Not decided: the link graph itself '
-      '(CopyLink, the distribution loops of One2Many/Many2One, autolinking over std::deque), exactly-one-value-per-item, CleanUpValueNodes, '
+      '(the order in which links run, CopySrcDest of CopyLink, autolinking over std::deque), exactly-one-value-per-item, CleanUpValueNodes, '
       'slack value computation. Native replay: replay/c04_replay.cc (setnum, graph, links), replay/c04_repeat_replay.cc.',
       'DESIGN.md 4 C04')
 
@@ -221,10 +227,12 @@ claim('C07',
       'integer is the indicator value), FunctionalConstraint::ComputeViolation (result variable against the recomputed value, by context), '
       'AlgebraicConstraint::ComputeViolation and AlgConRhs<kind>::ComputeViolation (lower / upper side per comparison kind). '
       'Variables: SolutionChecker::CheckVars (loop contract, witness variable): every checked variable has its lower bound (lb - x relative '
-      'to lb), upper bound (x - ub relative to ub) and - when integer - integrality (absolute tolerance only) passed to the violation counter.',
+      'to lb), upper bound (x - ub relative to ub) and - when integer - integrality (absolute tolerance only) passed to the violation counter. '
+      'Constraints: ConstraintKeeper::ComputeViolations (loop contract, witness constraint): a constraint that is not unused is checked exactly when '
+      'one of its classes (original 2 / intermediate 4 / sent to the solver 8) is requested, and counted under the right heading.',
       'Trusted: CBMC (fabs/round models), extractor, arguments are valid variable indices (model invariant, assumed at each access), '
       'no NaN in the point. Not decided: exact counting for Count/Numberof, the quotient of Div (double division is beyond every '
-      'installed back end), the converse of AllDiff, transcendental evaluators, which constraints the driver passes to the checker, recomputation of '
+      'installed back end), the converse of AllDiff, transcendental evaluators, the order of the keepers, recomputation of '
       'auxiliary variables, option plumbing, solve code 150. Native replay: replay/c07_replay.cc (grid of points on the real evaluators).',
       'DESIGN.md 4 C07')
 
@@ -236,20 +244,24 @@ claim('C06',
       'the fixed-result part of And/Or, Div (result box = hull of the four corner quotients, corner quotients as opaque ghost values; '
       'integer result type only for an exact integer quotient of fixed integers), Pow (constant only for exponent 0, alias only for exponent 1, '
       'integer only for an integer argument and a non-negative integer exponent, box never narrower than the two end values - opaque ghosts - '
-      'and containing 0 for an even exponent around 0), and the result boxes of Exp, ExpA, Sin, Cos, Tanh, Asin, Acos, Atan, Cosh, Acosh - for '
+      'and containing 0 for an even exponent around 0), the bounds and type of affine and quadratic expressions (expr_bounds.h: which bound of which '
+      'variable enters which side of each term by the sign of its coefficient, each term once, INTEGER only for integer variables and integer '
+      'coefficients - witness term, loop contracts; ProductBounds as the hull of the four corner products / [0 or min, max] of the squares, the '
+      'products being opaque ghost values; AddBoundsAndType), and the result boxes of Exp, ExpA, Sin, Cos, Tanh, Asin, Acos, Atan, Cosh, Acosh - for '
       'argument lists and models of any size: the array functions return exactly the min/max of the box ends (witness position + '
       'arbitrary common bound), types are INTEGER only for integer-valued arguments, aliases only when exact, fixed results only '
       'when justified for every body value, range boxes contain the range constants of the functions.',
       'Trusted: CBMC (fabs/floor/ceil models), extractor (prepro / model handle objects as free functions), arguments are valid '
       'variable indices, bounds not NaN, the body box given to FixEqualityResult is sound. NOT under contract (IEEE '
       'multiplication/division/pow monotonicity is beyond every installed back end): ComputeBoundsAndType for linear/quadratic '
-      'terms, ProductBounds, the arithmetic of Div\'s corner quotients, what pow returns and its monotonicity, And/Or argument filtering, NarrowVarBounds propagation, lin_approx.h. The claim is restricted '
+      'terms (the products and sums themselves), the arithmetic of Div\'s corner quotients, what pow returns and its monotonicity, And/Or argument filtering, NarrowVarBounds propagation, lin_approx.h. The claim is restricted '
       'accordingly.',
       'DESIGN.md 4 C06')
 
 claim('C16',
       '"Error instead of silent NaN" clause. (A) Function and loop contracts on the real helpers check_args, check_result, '
-      'format_eval_error, check_const_arg, check_int_arg, check_uint_arg, check_zero_func_args, check_deriv_arg, check_bessel_args for '
+      'format_eval_error, check_const_arg, check_int_arg, check_uint_arg, check_zero_func_args, check_deriv_arg, check_bessel_args, mul_by_sign '
+      '(the derivative factor of |x|: NaN - hence an error - at the kink) for '
       'any argument count. (B) For every binding registered with ADDFUNC (table read on each run; both tiers: all ~342; the thorough tier re-proves a seed-chosen 10% sample with '
       'a second SAT back end) the real body is checked with every gsl_* function given an arbitrary result: whenever a GSL function '
       'with a status result (*_e family) reports a failure an error message is set; when no error message is set the value and the requested derivative / Hessian entries are not NaN, derivative arrays '
